@@ -92,14 +92,17 @@ class World(object):
                     # rotation by exactly 180 degrees: Cayley with q = 0; also the axis-aligned ones (diag(1,-1,-1), ...)
                     p = r.choice([[1, 0, 0], [0, 1, 0], [0, 0, 1], [r.randint(-4, 4), r.randint(-4, 4), r.randint(1, 4)]])
                     U0 = cayley(p, 0)
-                ubi = mod.u_to_ubi(U0, self.cell)
+                # handedness is a sign, not a size: cells a thousand times smaller or larger than a mineral's are right-handed UBIs
+                # too (a triple product compared with a fixed positive number instead of with zero rejects the small ones)
+                cell = r.choice([self.cell, self.cell, [0.05, 0.06, 0.07, 80.0, 95.0, 100.0], [300.0, 400.0, 500.0, 80.0, 95.0, 100.0]])
+                ubi = mod.u_to_ubi(U0, cell)
             finally:
                 self.xfab.CHECKS.activated = was
             if c == "lefthanded":
                 i, j = r.sample([0, 1, 2], 2)
                 ubi = ubi.copy()
                 ubi[[i, j]] = ubi[[j, i]]
-            return (ubi, self.cell) if f == "ubi_to_u_and_eps" else (ubi,)
+            return (ubi, cell) if f == "ubi_to_u_and_eps" else (ubi,)
         if f == "ub_to_u_b":
             B = mod.form_b_mat(self.cell)
             UB = self.rot().dot(B)
@@ -119,7 +122,15 @@ class World(object):
                 W = V.copy()
                 W[r.randrange(3), r.randrange(3)] += r.choice([-1, 1]) * 10 ** r.uniform(-3, 0)
                 return (self.rot(), W, cs)
-            return (U, V, cs)       # nonorth / detm1 in the first argument
+            # nonorth / detm1 in the first argument; in part of the cases the second argument is invalid too, in the way that
+            # compensates (both improper; s.U and V/s): the relative rotation U'.V is then a perfect rotation although neither
+            # argument is - a guard that looks at the product instead of at each argument lets these through
+            if c == "detm1" and r.random() < 0.5:
+                V = -V if r.random() < 0.5 else V.dot(np.diag([1, -1, 1]))
+            elif c == "nonorth" and r.random() < 0.4:
+                s_ = r.choice([2.0, 0.5, 1.25])
+                return (self.rot() * s_, V / s_, cs)
+            return (U, V, cs)
         raise common.MachineryError("no concretisation for %s.%s %s" % (m, f, c))
 
     def assign_value(self, v):
